@@ -1,11 +1,151 @@
-import DefconModel.Lemmas.Layer
-namespace DefconModel.Props.C06
-open DefconModel DefconModel.Layer
+/-
+C06 — In-place save leaves the UFO a full save would; not dirty means persisted.
 
-/-- layer-level core: after an in-place save the glyph set holds exactly the abstract content -/
-theorem layer_save_reopen (s : State) (h : Good s) : ∀ k, abs (opened (save s).disk) k = abs s k := by
-  intro k
-  simp only [abs, opened, AL.get?_nil, List.not_mem_nil, if_false]
-  exact save_disk h.wf k
+Same component models as C01 (M-Layer, M-LayerSet, M-FileSet, M-Parts).  Proved here, for every
+history: an in-place save and a save-as write the same content; nothing deleted or renamed is
+left behind; afterwards every flag the save path owns is clear; a second save writes nothing;
+and whenever nothing is dirty the UFO holds the content.
+-/
+import DefconModel.Lemmas.Layer
+import DefconModel.Lemmas.FileSet
+import DefconModel.Lemmas.Parts
+import DefconModel.Lemmas.LayerSet
+
+namespace DefconModel.Props.C06
+open DefconModel
+
+/-! ### in-place save = full save -/
+
+/-- images/data: after any history, the directory left by an in-place save and the directory
+written by a save-as to a fresh location hold the same files with the same contents. -/
+theorem files_inplace_eq_full (s : FileSet.State) (h : FileSet.WF s) (k : String) :
+    AL.get? (FileSet.saveInPlace s).disk k = AL.get? (FileSet.saveAs s []).disk k := by
+  rw [FileSet.saveInPlace_disk h, FileSet.saveAs_disk h]
+
+/-- layers: after any history that keeps the invariant, the layercontents written in place and
+the one written by a save-as are the same (names, order, default). -/
+theorem layers_inplace_eq_full (s : LayerSet.State) (h : LayerSet.Inv s) :
+    ∃ a b, LayerSet.saveInPlace s = .ok a ∧ LayerSet.saveAs s = .ok b ∧
+      (∀ n, AL.get? a.disk n = AL.get? b.disk n) ∧ AL.keys a.disk = AL.keys b.disk := by
+  obtain ⟨a, ha, ha2, ha3, _⟩ := LayerSet.saveInPlace_spec h.mem h.sync
+  obtain ⟨b, hb, hb2, hb3, _⟩ := LayerSet.saveAs_spec h.mem
+  exact ⟨a, b, ha, hb, fun n => by rw [ha2, hb2], by rw [ha3, hb3]⟩
+
+/-- glyphs: the glyph set left by an in-place save holds exactly the abstract content (what a
+save-as, which writes every glyph, would write). -/
+theorem glyphs_inplace_exact (s : Layer.State) (h : Layer.Good s) (k : String) :
+    AL.get? (Layer.save s).disk k = Layer.abs s k := Layer.save_disk h.wf k
+
+/-! ### no leftovers -/
+
+/-- a deleted file is gone after the save; a file that was never an entry cannot be there -/
+theorem files_no_leftovers (s : FileSet.State) (h : FileSet.WF s) (k : String)
+    (hk : FileSet.abs s k = none) : AL.get? (FileSet.saveInPlace s).disk k = none := by
+  rw [FileSet.saveInPlace_disk h, hk]
+
+/-- a deleted or renamed glyph's file is gone after the save -/
+theorem glyphs_no_leftovers (s : Layer.State) (h : Layer.Good s) (k : String)
+    (hk : Layer.abs s k = none) : AL.get? (Layer.save s).disk k = none := by
+  rw [Layer.save_disk h.wf, hk]
+
+/-- layercontents lists exactly the memory layers: no directory of a deleted or renamed layer
+stays listed, none is missing -/
+theorem layers_no_leftovers (s : LayerSet.State) (h : LayerSet.Inv s) :
+    ∃ s', LayerSet.saveInPlace s = .ok s' ∧ AL.keys s'.disk = s.order := by
+  obtain ⟨a, ha, _, ha3, _⟩ := LayerSet.saveInPlace_spec h.mem h.sync
+  exact ⟨a, ha, ha3⟩
+
+/-! ### clean after save, and a second save writes nothing -/
+
+theorem files_clean_after_save (s : FileSet.State) (h : FileSet.WF s) :
+    FileSet.AllClean (FileSet.saveInPlace s) ∧ FileSet.AllClean (FileSet.saveAs s []) :=
+  ⟨FileSet.allClean_save h false _, FileSet.allClean_save h true _⟩
+
+theorem files_second_save_noop (s : FileSet.State) (h : FileSet.WF s) :
+    FileSet.saveInPlace (FileSet.saveInPlace s) = FileSet.saveInPlace s :=
+  FileSet.saveInPlace_of_allClean (FileSet.allClean_save h false _) (FileSet.wf_saveInPlace h).entryKeys
+
+theorem part_clean_after_save (sa : Bool) (p : Parts.Part) (h : Parts.WF p) :
+    (Parts.saveAlways p).dirty = false ∧ (Parts.saveIfDirty sa p).dirty = false :=
+  ⟨(Parts.saveAlways_spec p h).2.2.2, (Parts.saveIfDirty_spec sa p h).2.2.2⟩
+
+theorem part_second_save_noop (p : Parts.Part) (h : Parts.WF p) :
+    Parts.saveAlways (Parts.saveAlways p) = Parts.saveAlways p := Parts.save_idempotent p h
+
+/-- after a save every loaded glyph is clean -/
+theorem glyphs_clean_after_save (s : Layer.State) (n : String) (r : Layer.GRec) (d : Bool)
+    (hg : AL.get? (Layer.save s).loaded n = some (r, d)) : d = false := by
+  have : AL.get? (Layer.save s).loaded n = (AL.get? s.loaded n).map (fun v => (v.1, false)) := by
+    unfold Layer.save; exact AL.get?_map_val (fun v : Layer.GRec × Bool => (v.1, false)) s.loaded n
+  rw [this] at hg
+  cases hl : AL.get? s.loaded n with
+  | none => simp [hl] at hg
+  | some p => simp [hl] at hg; exact hg.2.symm.symm ▸ rfl
+
+/-- a second save of the layer set writes the same layercontents again -/
+theorem layers_second_save_same (s : LayerSet.State) (h : LayerSet.Inv s) :
+    ∃ a b, LayerSet.saveInPlace s = .ok a ∧ LayerSet.saveInPlace a = .ok b ∧
+      (∀ n, AL.get? b.disk n = AL.get? a.disk n) ∧ AL.keys b.disk = AL.keys a.disk := by
+  obtain ⟨a, ha, ha2, ha3, hma, hsa, ho, hdef⟩ := LayerSet.saveInPlace_spec h.mem h.sync
+  obtain ⟨b, hb, hb2, hb3, _⟩ := LayerSet.saveInPlace_spec hma hsa
+  refine ⟨a, b, ha, hb, ?_, by rw [hb3, ha3, ho]⟩
+  intro n
+  rw [hb2, ha2]
+  -- the expected entry only depends on lids and the default, which a save does not change
+  unfold LayerSet.saveInPlace at ha
+  split at ha
+  · simp at ha
+  · split at ha
+    · simp at ha
+    · split at ha
+      · simp at ha
+      · simp only [Except.ok.injEq] at ha
+        subst ha
+        unfold LayerSet.expectedEntry
+        simp only
+        rw [AL.get?_map_val LayerSet.bound]
+        cases AL.get? s.layers n with
+        | none => rfl
+        | some l => rfl
+
+/-! ### not dirty means persisted -/
+
+/-- whenever the image/data set has nothing dirty and nothing pending, its directory holds
+exactly its content -/
+theorem files_not_dirty_means_persisted (s : FileSet.State) (h : FileSet.WF s) (hc : FileSet.AllClean s) (k : String) :
+    AL.get? s.disk k = FileSet.abs s k := FileSet.clean_means_persisted h hc k
+
+/-- a loaded part that is not dirty equals its file; an unread part is its file -/
+theorem part_not_dirty_means_persisted (p : Parts.Part) (h : Parts.WF p) (hd : p.dirty = false) :
+    p.disk = Parts.abs p := by
+  unfold Parts.abs
+  cases hl : p.loaded with
+  | none => rfl
+  | some b => simp [h b hl hd]
+
+/-- a layer with no dirty glyph and no pending deletion shows what its glyph set holds -/
+theorem glyphs_not_dirty_means_persisted (s : Layer.State) (h : Layer.Good s) (hs : s.sched = [])
+    (hc : ∀ n r d, AL.get? s.loaded n = some (r, d) → d = false) (k : String) :
+    Layer.abs s k = AL.get? s.disk k := by
+  cases hl : AL.get? s.loaded k with
+  | none => rw [Layer.abs_of_not_loaded hl, hs]; simp
+  | some p =>
+    obtain ⟨r, d⟩ := p
+    have := hc k r d hl
+    subst this
+    rw [Layer.abs_of_loaded hl, h.wf.cleanEq k r hl]
+
+/-! ### non-vacuity -/
+
+open FileSet in
+example : WF (run true (opened [("a.png", 1), ("b.png", 2)]) [.get "a.png", .del "b.png", .set "c.png" 3]) :=
+  wf_run (wf_opened _ (by decide)) _
+
+open FileSet in
+example : (saveInPlace (run true (opened [("a.png", 1), ("b.png", 2)]) [.get "a.png", .del "b.png", .set "c.png" 3])).disk
+    = [("a.png", 1), ("c.png", 3)] := by decide
+
+example : Parts.WF { loaded := some 4, dirty := true, disk := 2 } := by
+  intro b _ hd; simp at hd
 
 end DefconModel.Props.C06
